@@ -13,6 +13,8 @@
   to the ShmWriter fails ⇒ it PANICS, without looking at the mailbox again.  The message built is whatever
   `Poll.msg` says (an opaque payload for this group; its selection logic is group `Poller`'s), under `Poll.phcMiss`:
   a reply never carries the configured PHC's reference id (otherwise the PHC file is read — group `Poller`).
+  Context: `pollerCtx` = the regenerated tables minus the two methods of `impl ChronyOperations for
+  ClockErrorBoundPoller` (operations of the environment here; they are group `Poller`'s: `CodeTiePoller`).
   Model: `ThreadsProg.pollerProg` / `PollerEnd.kind` (`poller_iter_abs`, `poller_end_kind`; the program runs
   `stepPoller` from `start` to `exiting kind`: `ThreadsProgProps.poller_prog_pcs`, `pollerDo_next`).
 
@@ -37,7 +39,7 @@ theorem poller_exit_eq (ks : List Thread) (phc : Option (Nat × Value)) (k F : N
     (e : PEnd) (hmissE : e.poll.phcMiss phc) (hsend : ∀ p, e = .sendFailed p → p.sends = true)
     (nowNs : Int) (inp : Nat → Value) (i0 i1 : Value)
     (hin : inputsAt inp 0 (pollerStartInputs i0 i1 ++ loopInputs k it e)) :
-    runFuel (F + k + 200) (Code.ctxWith nowNs DictThreads.ext [] inp) "chrony_poller::run" .unit
+    runFuel (F + k + 200) (pollerCtx nowNs inp) "chrony_poller::run" .unit
       [contextValue .poller ks, phcValue phc]
     = pollerOutcome e (pollerStartEvents i0 i1 ++ loopEvents 1000000000 k it e) :=
   poller_run_tie ks phc k F it hcont hmiss e hmissE hsend nowNs inp i0 i1 hin
@@ -47,13 +49,13 @@ theorem poller_loop_eq (ks : List Thread) (fs : List (String × Value)) (phc : O
     (hmiss : ∀ i, i < k → (it i).poll.phcMiss phc) (e : PEnd) (hmissE : e.poll.phcMiss phc)
     (hsend : ∀ p, e = .sendFailed p → p.sends = true) (nowNs : Int) (inp : Nat → Value)
     (hin : inputsAt inp 0 (loopInputs k it e)) :
-    runFuel (F + k + 100) (Code.ctxWith nowNs DictThreads.ext [] inp)
+    runFuel (F + k + 100) (pollerCtx nowNs inp)
       "chrony_poller::run_clock_error_bound_poller" .unit
       [contextValue .poller ks, .struct "ClockErrorBoundPoller" fs, phcValue phc, .duration d]
     = pollerOutcome e (loopEvents d k it e) := by
   have h := poller_loop_tie ks fs phc d k F it hcont hmiss e hmissE hsend nowNs inp [] [] 0 hin
-  have hl : (Code.ctxWith nowNs DictThreads.ext [] inp).fns.lookup "chrony_poller::run_clock_error_bound_poller"
-      = some Code.fn_chrony_poller__run_clock_error_bound_poller := by simp [rs_code, List.lookup]
+  have hl : (pollerCtx nowNs inp).fns.lookup "chrony_poller::run_clock_error_bound_poller"
+      = some Code.fn_chrony_poller__run_clock_error_bound_poller := by simp [rs_eval, rs_code, abstractedP, List.lookup]
   simp only [runFuel, hl, h]
   cases e <;> simp [loopResult, pollerOutcome, rs_eval]
 
@@ -124,7 +126,7 @@ def demoPollerInputs : List Value :=
   pollerStartInputs .unit .unit ++ (PIter.mk (.noReply .unit true) .timeout).inputs ++
     (PEnd.sendFailed (.noReply .unit false)).inputs
 
-example : runFuel 201 (Code.ctxWith 0 DictThreads.ext [] (fun i => demoPollerInputs.getD i .unit)) "chrony_poller::run"
+example : runFuel 201 (pollerCtx 0 (fun i => demoPollerInputs.getD i .unit)) "chrony_poller::run"
       .unit [contextValue .poller [.main, .poller, .writer], phcValue none] = .panic := by
   refine poller_exit_eq [.main, .poller, .writer] none 1 0 (fun _ => ⟨.noReply .unit true, .timeout⟩)
     (fun _ _ => rfl) (fun _ _ => trivial) (.sendFailed (.noReply .unit false)) trivial ?_ 0 _ .unit .unit ?_
